@@ -46,6 +46,8 @@ func main() {
 		lo, _ := strconv.ParseInt(os.Args[3], 10, 64)
 		hi, _ := strconv.ParseInt(os.Args[4], 10, 64)
 		checks.RaceWorker(os.Args[2], lo, hi)
+	case "c02":
+		checks.C02Debug(os.Args[2:])
 	case "c08":
 		checks.C08Debug(os.Args[2:])
 	case "list":
